@@ -1624,6 +1624,185 @@ theorem justifiedFrom_split (kn : List Nat) (pre post : List Ev) (t : Touch)
     · exact Or.inr (Or.inl h1)
     · exact Or.inr (Or.inr h1)
 
+/-! ### nested packages: which objects a package can name -/
+
+/-- run from the fixed state `st`, `m` changes nothing and can only return values satisfying `P` -/
+def At {α} (c : Ctx) (st : St) (m : M α) (P : α → Prop) : Prop :=
+  ∀ fut, (m c st fut).st = st ∧ (m c st fut).fut = fut ∧ ∀ a, (m c st fut).r = .ok a → P a
+
+theorem At.pure {α} {c : Ctx} {st : St} {P : α → Prop} (a : α) (h : P a) : At c st (Pure.pure a : M α) P := by
+  intro fut
+  refine ⟨rfl, rfl, ?_⟩
+  intro b hb
+  have : (Except.ok a : Except Exc α) = .ok b := hb
+  cases this; exact h
+
+theorem At.throwE {α} {c : Ctx} {st : St} {P : α → Prop} (e : Err) : At c st (Handlers.throwE e : M α) P := by
+  intro fut
+  exact ⟨rfl, rfl, by intro b hb; cases hb⟩
+
+theorem At.liftE {α} {c : Ctx} {st : St} {P : α → Prop} (r : Except Err α) (h : ∀ a, r = .ok a → P a) :
+    At c st (Handlers.liftE r : M α) P := by
+  cases r with
+  | ok a => exact At.pure a (h a rfl)
+  | error e => exact At.throwE e
+
+theorem At.bind {α β} {c : Ctx} {st : St} {m : M α} {f : α → M β} {P1 : α → Prop} {P2 : β → Prop}
+    (h1 : At c st m P1) (h2 : ∀ a, P1 a → At c st (f a) P2) : At c st (m >>= f) P2 := by
+  intro fut
+  simp only [Bind.bind]
+  have := h1 fut
+  cases hm : m c st fut with
+  | mk r st1 fut1 =>
+    rw [hm] at this
+    obtain ⟨e1, e2, hp⟩ := this
+    subst e1; subst e2
+    cases r with
+    | error x => exact ⟨rfl, rfl, by intro b hb; cases hb⟩
+    | ok a => exact h2 a (hp a rfl) fut1
+
+theorem At.ite {α} {c : Ctx} {st : St} {b : Bool} {m1 m2 : M α} {P : α → Prop}
+    (h1 : At c st m1 P) (h2 : At c st m2 P) : At c st (if b then m1 else m2) P := by
+  cases b <;> simpa
+
+theorem At.inGenerator {α} {c : Ctx} {st : St} {m : M α} {P : α → Prop} (h : At c st m P) :
+    At c st (inGenerator m) P := by
+  intro fut
+  have := h fut
+  unfold Handlers.inGenerator
+  cases hm : m c st fut with
+  | mk r st1 fut1 =>
+    rw [hm] at this
+    cases r with
+    | ok a => exact this
+    | error x => exact ⟨this.1, this.2.1, by intro b hb; cases hb⟩
+
+theorem At.mapM' {α β : Type} {c : Ctx} {st : St} (g : α → M β) (P : β → Prop) (xs : List α)
+    (hg : ∀ x ∈ xs, At c st (g x) P) : At c st (mapM' g xs) (fun ys => ∀ y ∈ ys, P y) := by
+  induction xs with
+  | nil => simp only [Handlers.mapM']; exact At.pure _ (by intro y hy; cases hy)
+  | cons x xs ih =>
+    simp only [Handlers.mapM']
+    refine At.bind (hg x (by simp)) (fun b hb => ?_)
+    refine At.bind (ih (fun x' hx' => hg x' (by simp [hx']))) (fun bs hbs => ?_)
+    refine At.pure _ ?_
+    intro y hy
+    rcases List.mem_cons.mp hy with h | h
+    · rw [h]; exact hb
+    · exact hbs y h
+
+theorem At.tableGet {c : Ctx} {st : St} (key : Val) :
+    At c st (tableGet key) (fun o => ∃ s ∈ st.table, s.o = o) := by
+  intro fut
+  unfold Handlers.tableGet
+  cases h : lookupSlot st.table key with
+  | none => exact ⟨rfl, rfl, by intro b hb; cases hb⟩
+  | some s =>
+    refine ⟨rfl, rfl, ?_⟩
+    intro b hb
+    have : (Except.ok s.o : Except Exc Nat) = .ok b := hb
+    cases this
+    exact ⟨s, List.mem_of_find?_eq_some h, rfl⟩
+
+/-- **every object of a resolved package is an object of the table of the state it was resolved in** - at any tuple
+depth, for any package whatsoever (and resolving changes nothing) -/
+theorem resolve_table (c : Ctx) (st : St) : ∀ f pkg,
+    At c st (resolve f pkg) (fun p => ∀ o ∈ p.objs, ∃ s ∈ st.table, s.o = o) := by
+  intro f
+  induction f with
+  | zero => intro pkg; simp only [resolve]; exact At.throwE _
+  | succ f ihf =>
+    intro pkg
+    simp only [resolve]
+    refine At.bind (P1 := fun _ => True) (At.liftE _ (fun _ _ => trivial)) (fun lv _ => ?_)
+    refine At.ite ?_ (At.ite ?_ (At.pure _ (by intro o ho; simp [Pkg.objs] at ho)))
+    · refine At.bind (P1 := fun _ => True) (At.liftE _ (fun _ _ => trivial)) (fun items _ => ?_)
+      refine At.bind (At.inGenerator (At.mapM' _ _ items (fun x _ => ihf x))) (fun xs hxs => ?_)
+      refine At.pure _ ?_
+      intro o ho
+      simp only [Pkg.objs, pkgObjsL_eq_flatMap, List.mem_flatMap] at ho
+      obtain ⟨x, hx, hox⟩ := ho
+      exact hxs x hx o hox
+    · refine At.bind (At.tableGet _) (fun o ho => ?_)
+      refine At.pure _ ?_
+      intro o' ho'
+      simp [Pkg.objs] at ho'
+      rw [ho']; exact ho
+
+theorem Holds.pure {α} {c : Ctx} {P : α → Prop} (a : α) (h : P a) : Holds c (Pure.pure a : M α) P := by
+  intro st fut b hb
+  have : (Except.ok a : Except Exc α) = .ok b := hb
+  cases this; exact h
+
+theorem Holds.bindQ {α β} {c : Ctx} {m : M α} {f : α → M β} {P1 : α → Prop} {P2 : β → Prop}
+    (h1 : Holds c m P1) (h2 : ∀ a, P1 a → Holds c (f a) P2) : Holds c (m >>= f) P2 := by
+  intro st fut b hb
+  simp only [Bind.bind] at hb
+  have hp := h1 st fut
+  cases hm : m c st fut with
+  | mk r st1 fut1 =>
+    rw [hm] at hb hp
+    cases r with
+    | error x => cases hb
+    | ok a => exact h2 a (hp a rfl) st1 fut1 b hb
+
+theorem Holds.inGenerator {α} {c : Ctx} {m : M α} {P : α → Prop} (h : Holds c m P) : Holds c (inGenerator m) P := by
+  intro st fut b hb
+  unfold Handlers.inGenerator at hb
+  have := h st fut
+  cases hm : m c st fut with
+  | mk r st1 fut1 =>
+    rw [hm] at hb this
+    cases r with
+    | ok a => exact this b hb
+    | error x => cases hb
+
+theorem Holds.mapM' {α β : Type} {c : Ctx} (g : α → M β) (R : α → β → Prop) (xs : List α)
+    (hg : ∀ x ∈ xs, Holds c (g x) (R x)) : Holds c (mapM' g xs) (fun ys => ∀ y ∈ ys, ∃ x ∈ xs, R x y) := by
+  induction xs with
+  | nil => simp only [Handlers.mapM']; exact Holds.pure _ (by intro y hy; cases hy)
+  | cons x xs ih =>
+    simp only [Handlers.mapM']
+    refine Holds.bindQ (hg x (by simp)) (fun b hb => ?_)
+    refine Holds.bindQ (ih (fun x' hx' => hg x' (by simp [hx']))) (fun bs hbs => ?_)
+    refine Holds.pure _ ?_
+    intro y hy
+    rcases List.mem_cons.mp hy with h | h
+    · rw [h]; exact ⟨x, by simp, hb⟩
+    · obtain ⟨x', hx', hr⟩ := hbs y h
+      exact ⟨x', by simp [hx'], hr⟩
+
+/-- **the second pass of `_unbox` adds no object**: every local object in the value it builds is an object of the
+resolved package (proxies for the peer's objects are not local objects) -/
+theorem unbox2_objs (c : Ctx) : ∀ f p, Holds c (unbox2 f p) (fun v => ∀ o ∈ v.objs, o ∈ p.objs) := by
+  intro f
+  induction f with
+  | zero => intro p; simp only [unbox2]; exact Holds.throwE _
+  | succ f ihf =>
+    intro p
+    cases p with
+    | res o => simp only [unbox2]; exact Holds.pure _ (by simp [PV.objs, Pkg.objs])
+    | node xs =>
+      simp only [unbox2]
+      refine Holds.bindQ (Holds.inGenerator (Holds.mapM' _ (fun x v => ∀ o ∈ v.objs, o ∈ x.objs) xs (fun x _ => ihf x)))
+        (fun ys hys => ?_)
+      refine Holds.pure _ ?_
+      intro o ho
+      have := mkTuple_objs ys o ho
+      rw [objsL_eq_flatMap, List.mem_flatMap] at this
+      obtain ⟨y, hy, hoy⟩ := this
+      obtain ⟨x, hx, hr⟩ := hys y hy
+      simp only [Pkg.objs, pkgObjsL_eq_flatMap, List.mem_flatMap]
+      exact ⟨x, hx, hr o hoy⟩
+    | leaf label value =>
+      simp only [unbox2]
+      refine Holds.ite (fun _ => Holds.pure _ (by simp [PV.objs])) (fun _ => ?_)
+      refine Holds.ite (fun _ => ?_) (fun _ => Holds.throwE _)
+      refine Holds.bind (fun v0 => Holds.bind (fun v1 => Holds.bind (fun v2 => Holds.bind (fun c' => Holds.bind (fun st => ?_)))))
+      refine Holds.ite (fun _ => Holds.pure _ (by simp [PV.objs])) (fun _ => ?_)
+      exact Holds.bind (fun _ => Holds.bind (fun _ => Holds.pure _ (by simp [PV.objs])))
+
+
 theorem pyEqNat_int (a : Int) (b : Nat) : pyEqNat (.int a) b = (a == (b : Int)) := by
   simp [pyEqNat, pyEq, leafEq, numVal, Num.eq]
 
